@@ -624,3 +624,11 @@ def run(chk):
     entrypoints.check_constructors(chk, F)
     from . import ctors
     chk.guard("R12.7", "typed-constructors", ctors.check_typed_constructors, chk, F, "R12.7")
+    # the size switches (max_script_size, the contexts' script size limits) compare Miniscript::script_size / pk_cost,
+    # whose only non-structural ingredients are script_num_size and Ctx::pk_len: exact limits need exact sizes (rules
+    # shared with C04)
+    from . import c04
+    from ..report import RuleAlias
+    al = RuleAlias(chk, {"R04.2n": "R12.8", "R04.2k": "R12.8"}, "the byte counts the size limits are applied to")
+    chk.guard("R12.8", "num-size", c04.check_num_size, al, F)
+    chk.guard("R12.8", "pk-len", c04.check_pk_len, al, F)
